@@ -45,6 +45,8 @@ func runC07(p *Program, r *Report) {
 		r.OK("C07.R2", "template.nameSpace#freeze-flag", "", "the freeze flag is the field of the name space that both execution gates set: "+ff.name)
 	}
 	checkFlagMonotone(p, r, ff, "C07.R6")
+	// a template whose body was escaped cleanly keeps its tree: callers that were already executed go on calling it
+	checkTreeEmptiedOnlyOnBodyFailure(p, r, "C07.R7")
 	// checkCanParse: non-nil iff escaped, read under the lock
 	{
 		pe := newPathExplorer(p, ccp)
